@@ -9,6 +9,12 @@ import Mahotas.Proofs.C17PR
 import Mahotas.Proofs.C17Resid
 import Mahotas.Proofs.C17General
 import Mahotas.Proofs.C17Energy
+import Mahotas.Proofs.C17Odd
+import Mahotas.Proofs.C17Mem
+import Mahotas.Proofs.C17Center
+import Mahotas.Proofs.C17Round
+import Mahotas.Proofs.C17Cast
+import Mahotas.Proofs.C17RoundTrip
 import Mathlib.Algebra.Order.Ring.Rat
 namespace Mahotas.C17
 open Mahotas
@@ -630,3 +636,430 @@ example : energy 4 4 (daubechies2 ([3 / 5, 6 / 5, 2 / 5, -1 / 5] : List ℚ) 4 4
       (fun y x => if y = 2 ∧ x = 2 then 1 else 0)) = 4 ∧
     energy 4 4 (fun y x => if y = 2 ∧ x = 2 then (1 : ℚ) else 0) = 1 := by
   constructor <;> decide +kernel
+
+/-! ## Round 4 — the kernels in rounded (floating-point) arithmetic (`Proofs/C17RoundTrip.lean`) -/
+
+namespace Mahotas.C17
+/-- proved allowance for the rounding of the **double** evaluation of `idaubechies(daubechies f)` with the ten generated
+    tables (relative to `max|f|`): `C⁴·((1+u)^(8n+4) − 1)` at `u = 2⁻⁵³`, `C = Σ|c_k|`, see `C17_tables_rounded_bound` -/
+def tableRoundTol : List Rat :=
+  [4 / 100000000000000, 13 / 100000000000000, 28 / 100000000000000, 37 / 100000000000000, 60 / 100000000000000,
+   103 / 100000000000000, 136 / 100000000000000, 125 / 100000000000000, 200 / 100000000000000, 299 / 100000000000000]
+end Mahotas.C17
+
+/-- **C17-T6 (one row, rounded arithmetic).** `RT.RV K fl` is the ordered field `K` in which every `+ − × ÷` is followed
+by the rounding function `fl` (negation and the literals `0`, `2` are exact) — the polymorphic row kernels `waveletRow`,
+`iwaveletRow` instantiated there perform the operations of the C loops in the C loops' order (`acc += c·d` per tap,
+`(l + h)/2`), each one rounded. Under the standard model of floating-point arithmetic `|fl x − x| ≤ u·|x|` (IEEE
+round-to-nearest without under/overflow: `u = 2⁻⁵³` for double, `2⁻²⁴` for float), for **every** coefficient list with an
+even number `n ≥ 2` of entries (exactly representable values), every even `N`, every row with `|f| ≤ M`:
+(i) each analysis sample is within `((1+u)^(2n) − 1)·C·M` of the exact one, (ii) each synthesis sample within
+`((1+u)^(2n+2) − 1)·C·G` (`|g| ≤ G`), (iii) the rounded round trip satisfies
+`|ĩw(w̃ f)[x] − f[x]| ≤ (errConst cs + C²·((1+u)^(4n+2) − 1))·M` at every `n − 2 ≤ x < N`, `C = Σ|c_k|`. -/
+theorem C17_rounded_round_trip_row {K : Type} [Field K] [LinearOrder K] [IsStrictOrderedRing K] (fl : K → K) (u : K)
+    (hu : 0 ≤ u) (hfl : ∀ x, |fl x - x| ≤ u * |x|) (cs : List K) (N : Nat) (f : Nat → K) (M : K) (hM : 0 ≤ M)
+    (hf : ∀ p, p < N → |f p| ≤ M) :
+    (∀ k, |(waveletRow (cs.map (RT.ex (fl := fl))) N (fun q => RT.ex (f q)) k).v - waveletRow cs N f k|
+      ≤ RT.gam u cs.length * (RT.absSum cs * M)) ∧
+    (∀ x, |(iwaveletRow (cs.map (RT.ex (fl := fl))) N (fun q => RT.ex (f q)) x).v - iwaveletRow cs N f x|
+      ≤ RT.gam u (cs.length + 1) * (RT.absSum cs * M)) ∧
+    (cs.length % 2 = 0 → 2 ≤ cs.length → N % 2 = 0 → ∀ x, cs.length ≤ x + 2 → x < N →
+      |(iwaveletRow (cs.map (RT.ex (fl := fl))) N
+          (waveletRow (cs.map (RT.ex (fl := fl))) N (fun q => RT.ex (f q))) x).v - f x|
+        ≤ (errConst cs + RT.absSum cs ^ 2 * RT.gam u (2 * cs.length + 1)) * M) :=
+  ⟨fun k => RT.wavelet_round hu hfl cs N f M hM hf k,
+   fun x => RT.iwavelet_round hu hfl cs N f M hM hf x,
+   fun heven hpos hN x hx hxN => RT.round_trip_round hu hfl cs heven hpos N hN f M hM hf x hx hxN⟩
+
+/-- **C17-T6 (`idaubechies(daubechies f)` in rounded arithmetic).** The whole 2-D pipeline (`daubechies2`: rows, columns;
+`idaubechies2`: columns, rows) evaluated in `RT.RV K fl` — every operation of the four passes rounded, in the order the
+code performs them. For every coefficient list with an even number `n ≥ 2` of entries and **no** other hypothesis, every
+even-sided image with `|f| ≤ M`: the rounded result is within `C⁴·((1+u)^(8n+4) − 1)·M` of the exact pipeline at **every**
+pixel, hence within `((2d + d²) + C⁴·((1+u)^(8n+4) − 1))·M` of `f` at every pixel with `y, x ≥ n − 2`
+(`d = errConst cs`: the quadrature-mirror residuals; the second term: the rounding). `RT.gam u k = (1+u)^(2k) − 1`. -/
+theorem C17_rounded_reconstruction_bound {K : Type} [Field K] [LinearOrder K] [IsStrictOrderedRing K] (fl : K → K)
+    (u : K) (hu : 0 ≤ u) (hfl : ∀ x, |fl x - x| ≤ u * |x|) (cs : List K) (heven : cs.length % 2 = 0)
+    (hpos : 2 ≤ cs.length) (N0 N1 : Nat) (h0 : N0 % 2 = 0) (h1 : N1 % 2 = 0) (f : Im K) (M : K) (hM : 0 ≤ M)
+    (hf : ∀ y x, y < N0 → x < N1 → |f y x| ≤ M) :
+    (∀ y x, |(idaubechies2 (cs.map (RT.ex (fl := fl))) N0 N1
+          (daubechies2 (cs.map (RT.ex (fl := fl))) N0 N1 (fun y x => RT.ex (f y x))) y x).v
+        - idaubechies2 cs N0 N1 (daubechies2 cs N0 N1 f) y x|
+        ≤ RT.gam u (4 * cs.length + 2) * (RT.absSum cs ^ 4 * M)) ∧
+    (∀ y x, cs.length ≤ y + 2 → y < N0 → cs.length ≤ x + 2 → x < N1 →
+      |(idaubechies2 (cs.map (RT.ex (fl := fl))) N0 N1
+          (daubechies2 (cs.map (RT.ex (fl := fl))) N0 N1 (fun y x => RT.ex (f y x))) y x).v - f y x|
+        ≤ ((2 * errConst cs + errConst cs ^ 2) + RT.absSum cs ^ 4 * RT.gam u (4 * cs.length + 2)) * M) := by
+  have hfw := fun y x => RT.forward_2d hu hfl cs N0 N1 f M hM hf y x
+  refine ⟨hfw, ?_⟩
+  intro y x hy hyN hx hxN
+  have hex := (C17_reconstruction_error_bound_general cs heven hpos N0 N1 h0 h1 f M hM hf y x hy hyN hx hxN).1
+  have e : (idaubechies2 (cs.map (RT.ex (fl := fl))) N0 N1
+      (daubechies2 (cs.map (RT.ex (fl := fl))) N0 N1 (fun y x => RT.ex (f y x))) y x).v - f y x =
+      ((idaubechies2 (cs.map (RT.ex (fl := fl))) N0 N1
+        (daubechies2 (cs.map (RT.ex (fl := fl))) N0 N1 (fun y x => RT.ex (f y x))) y x).v
+        - idaubechies2 cs N0 N1 (daubechies2 cs N0 N1 f) y x) +
+      (idaubechies2 cs N0 N1 (daubechies2 cs N0 N1 f) y x - f y x) := by ring
+  rw [e]
+  refine le_trans (abs_add_le _ _) ?_
+  have := hfw y x
+  nlinarith
+
+/-- the rounding constants of the generated tables at `u = 2⁻⁵³`, exact rational arithmetic -/
+theorem tables_round_consts :
+    (List.range 10).all (fun code =>
+      decide (RT.absSum (coeffsOf code : List ℚ) ^ 4 *
+        RT.gam (1 / 9007199254740992 : ℚ) (4 * (coeffsOf code : List ℚ).length + 2)
+        ≤ tableRoundTol.getD code 0)) = true := by decide +kernel
+
+/-- **C17-T6 (the ten generated tables, double arithmetic).** For each table `D2 … D20` (the float32 values the compiler
+stores, exactly representable in double), any rounding function on ℚ with `|fl x − x| ≤ 2⁻⁵³·|x|`, every even-sided
+rational image (every double image is one) with `|f| ≤ M`, at every pixel with `y, x ≥ ncoeffs − 2`: the result of
+`idaubechies(daubechies f)` computed with every operation rounded is within
+`(tableTol[code] + tableRoundTol[code])·M` of `f`, `tableRoundTol = (4, 13, 28, 37, 60, 103, 136, 125, 200, 299)·10⁻¹⁴` —
+the formerly unproved rounding allowance of the correspondence run (it used `1e-12`). Underflow is outside the model. -/
+theorem C17_tables_rounded_bound (fl : ℚ → ℚ) (hfl : ∀ x, |fl x - x| ≤ (1 / 9007199254740992 : ℚ) * |x|)
+    (code : Nat) (hc : code < 10) (N0 N1 : Nat) (h0 : N0 % 2 = 0) (h1 : N1 % 2 = 0)
+    (f : Im ℚ) (M : ℚ) (hM : 0 ≤ M) (hf : ∀ y x, y < N0 → x < N1 → |f y x| ≤ M)
+    (y x : Nat) (hy : 2 * (code + 1) ≤ y + 2) (hyN : y < N0) (hx : 2 * (code + 1) ≤ x + 2) (hxN : x < N1) :
+    |(idaubechies2 ((coeffsOf code : List ℚ).map (RT.ex (fl := fl))) N0 N1
+        (daubechies2 ((coeffsOf code : List ℚ).map (RT.ex (fl := fl))) N0 N1 (fun y x => RT.ex (f y x))) y x).v - f y x|
+      ≤ (tableTol.getD code 0 + tableRoundTol.getD code 0) * M := by
+  have h := List.all_eq_true.mp tables_consts code (List.mem_range.mpr hc)
+  simp only [Bool.and_eq_true, decide_eq_true_eq] at h
+  obtain ⟨hlen, htol⟩ := h
+  have hr := List.all_eq_true.mp tables_round_consts code (List.mem_range.mpr hc)
+  simp only [decide_eq_true_eq] at hr
+  have hb := (C17_rounded_reconstruction_bound fl (1 / 9007199254740992 : ℚ) (by norm_num) hfl
+    (coeffsOf code : List ℚ) (by rw [hlen]; omega) (by rw [hlen]; omega) N0 N1 h0 h1 f M hM hf).2 y x
+    (by rw [hlen]; exact hy) hyN (by rw [hlen]; exact hx) hxN
+  refine le_trans hb (mul_le_mul_of_nonneg_right ?_ hM)
+  linarith
+
+namespace Mahotas.C17
+/-- a rounding function that is not the identity: `x ↦ x·(1 + 2⁻⁵³)` meets the model with equality -/
+def exampleFl : ℚ → ℚ := fun x => x * (1 + 1 / 9007199254740992)
+end Mahotas.C17
+
+/-- non-vacuity: under `exampleFl` the rounded low-pass sample of the row `(1, 2, 3, 4)` with the exact four-tap filter
+differs from the exact sample `−1/5·1 + 2/5·2 + 6/5·3 + 3/5·4 = 33/5` and stays inside the proved band -/
+example :
+    (∀ x : ℚ, |exampleFl x - x| ≤ (1 / 9007199254740992 : ℚ) * |x|) ∧
+    waveletRow ([3 / 5, 6 / 5, 2 / 5, -1 / 5] : List ℚ) 4 (fun p => ([1, 2, 3, 4] : List ℚ).getD p 0) 0 = 33 / 5 ∧
+    (waveletRow (([3 / 5, 6 / 5, 2 / 5, -1 / 5] : List ℚ).map (RT.ex (fl := exampleFl))) 4
+      (fun q => RT.ex (([1, 2, 3, 4] : List ℚ).getD q 0)) 0).v ≠ 33 / 5 ∧
+    |(waveletRow (([3 / 5, 6 / 5, 2 / 5, -1 / 5] : List ℚ).map (RT.ex (fl := exampleFl))) 4
+      (fun q => RT.ex (([1, 2, 3, 4] : List ℚ).getD q 0)) 0).v - 33 / 5|
+      ≤ RT.gam (1 / 9007199254740992 : ℚ) 4 * (RT.absSum ([3 / 5, 6 / 5, 2 / 5, -1 / 5] : List ℚ) * 4) := by
+  refine ⟨?_, by decide +kernel, by decide +kernel, by decide +kernel⟩
+  intro x
+  have : exampleFl x - x = (1 / 9007199254740992 : ℚ) * x := by unfold exampleFl; ring
+  rw [this, abs_mul]
+  norm_num
+
+
+
+/-! ## Round 4: odd sides, the strided memory the C code works on, every border -/
+
+open Mahotas.C17.Mem in
+/-- **C17 (Haar round trip, every length).** On a row of ANY length `N` (odd included) `ihaar(haar(row))` returns the
+first `2⌊N/2⌋` samples unchanged and `0` in every later slot: for odd `N` the last sample is lost (the C loops run to
+`N/2`, the last slot of the scratch buffer keeps `T()`). Over any field with `2 ≠ 0`. -/
+theorem C17_ihaar_haar_row_any {K : Type} [Field K] (h2 : (2 : K) ≠ 0) (N : Nat) (f : Nat → K) (k : Nat) :
+    ihaarRow N (haarRow N f) k = if k < 2 * (N / 2) then f k else 0 :=
+  ihaarRow_haarRow_any h2 N f k
+
+/-- **C17 (Haar round trip, every shape, core model).** For every shape, `preserve_energy` on or off, the core model of
+`ihaar(haar(f))` returns `f` on `[0, 2⌊N0/2⌋) × [0, 2⌊N1/2⌋)` and `0` elsewhere — the last row and the last column of
+an odd side are lost, everything else is reconstructed. The real code follows the core model exactly when the pointer
+`high = data + step*N1/2` is right (`C17_high_pointer`, `C17_mem_is_core`): for a C-contiguous array that is every
+`N1` and every EVEN `N0`; with an odd number of rows the column pass of `ihaar` reads other elements
+(`Model/C17Mem.lean` reproduces that, the run compares it). -/
+theorem C17_ihaar_haar_any {K : Type} [Field K] (h2 : (2 : K) ≠ 0) (pe : Bool) (N0 N1 : Nat) (f : Im K)
+    (y x : Nat) :
+    ihaar2 pe N0 N1 (haar2 pe N0 N1 f) y x = if y < 2 * (N0 / 2) ∧ x < 2 * (N1 / 2) then f y x else 0 :=
+  ihaar2_haar2_any h2 pe N0 N1 f y x
+
+/-- non-vacuity: a row of five samples: the first four come back, the fifth is lost -/
+example : (List.range 5).map (ihaarRow 5 (haarRow 5 (fun i => ((i : ℚ) + 1) ^ 2))) = [1, 4, 9, 16, 0] := by
+  decide +kernel
+
+/-- **C17 (the pointer `high = data + step*N1/2`).** `ihaar` and `iwavelet` compute the address of the second half
+of a row as `data + (step·N)/2` with C's truncating division. It is the address of sample `N/2`, `data + step·(N/2)`,
+whenever `N` is even or `step = ±1`; for odd `N` it is off by exactly `step/2` (truncated) elements — zero only for
+`|step| ≤ 1`. -/
+theorem C17_high_pointer (step : Int) (N : Nat) :
+    ((N % 2 = 0 ∨ step = 1 ∨ step = -1) → Mem.highOff step N = step * ((N / 2 : Nat) : Int)) ∧
+    (N % 2 = 1 → Mem.highOff step N = step * ((N / 2 : Nat) : Int) + step.tdiv 2) :=
+  ⟨fun h => Mem.highOK_of step N h, fun h => Mem.highOff_odd step N h⟩
+
+/-- non-vacuity: the transposed pass over a C-contiguous `3 × 2` array (`step = 2`, `N = 3`): `high` is one element
+too far; over a `3 × 3` array (`step = 3`) likewise; with `step = 1` it is right -/
+example : Mem.highOff 2 3 = 3 ∧ (2 : Int) * ((3 / 2 : Nat) : Int) = 2 ∧ Mem.highOff 3 3 = 4 ∧ Mem.highOff 1 3 = 1 := by
+  decide
+
+/-- **C17 (the C kernels on strided memory are the core model).** For each of the four wrappers (`haar`, `ihaar`,
+`daubechies`, `idaubechies`), every coefficient list, `preserve_energy` on or off, every strided view `v` of a memory
+`m` whose elements have distinct addresses (`View.Inj`: C, Fortran, sliced, negative strides, …) and for which both
+pointers are right (each side even, or unit stride along it): the in-place passes over `f` and over the transposed
+view `f.T` followed by the in-place scaling — rows processed one after the other, each through its scratch buffer
+(`Mem.wrapperBody`, what the driver runs) — leave in the view exactly the core 2-D model applied to the image the
+view showed, and change no address outside the view. In particular on even sides the result does not depend on the
+memory layout. -/
+theorem C17_mem_is_core {K : Type} [Field K] (w : Mem.Wrapper) (pe : Bool) (cs : List K) (v : Mem.View)
+    (hinj : v.Inj) (h1 : v.N1 % 2 = 0 ∨ v.s1 = 1 ∨ v.s1 = -1) (h0 : v.N0 % 2 = 0 ∨ v.s0 = 1 ∨ v.s0 = -1)
+    (m : Mem.Memory K) :
+    (∀ y x, y < v.N0 → x < v.N1 →
+      Mem.wrapperBody w pe cs v m (v.addr y x) = Mem.core2 w pe cs v.N0 v.N1 (v.read m) y x) ∧
+    (∀ a, (∀ y x, y < v.N0 → x < v.N1 → a ≠ v.addr y x) → Mem.wrapperBody w pe cs v m a = m a) :=
+  Mem.wrapperBody_spec w pe cs v hinj (Mem.highOK_of _ _ h1) (Mem.highOK_of _ _ h0) m
+
+/-- non-vacuity of `C17_mem_is_core` (a C-contiguous `2 × 4` view is injective with both sides even) and the case it
+excludes: on the C-contiguous `3 × 2` array with rows `(1,4), (9,16), (25,36)` the memory-level `ihaar` returns
+`(−7, 5/4), (11/2, 5/4), (0, 0)` — what the real code returns — while the core model gives `(1, −5), (−5/2, 15/2), (0, 0)` -/
+example : (Mem.View.contig 2 4).Inj ∧
+    (List.range 6).map (fun (a : Nat) => Mem.wrapperBody .ihaar false ([] : List ℚ) (Mem.View.contig 3 2)
+      (fun p => ([1, 4, 9, 16, 25, 36] : List ℚ).getD p.toNat 0) (a : Int)) = [-7, 5 / 4, 11 / 2, 5 / 4, 0, 0] ∧
+    (List.range 6).map (fun (a : Nat) => ihaar2 false 3 2
+      (fun y x => ([1, 4, 9, 16, 25, 36] : List ℚ).getD (2 * y + x) 0) (a / 2) (a % 2)) = [1, -5, -5 / 2, 15 / 2, 0, 0] := by
+  refine ⟨Mem.contig_inj 2 4, ?_, ?_⟩ <;> decide +kernel
+
+/-- **C17 (`inline`, at the level of memory).** A wrapper call on a view `v` of the caller's memory `m`
+(`Mem.wrapMem`: `_wavelet_array`, then the kernels): unless `inline=True` AND the array is floating point, the caller's
+memory is returned unchanged — every address, inside and outside the view — and the result is computed in a fresh
+contiguous array from the image the view shows; with `inline=True` on a floating-point array the passes run on the
+caller's view itself, whatever its strides, and the returned image is that view. -/
+theorem C17_inline_memory {K : Type} [Field K] (w : Mem.Wrapper) (pe : Bool) (cs : List K) (isFloat inline : Bool)
+    (v : Mem.View) (m : Mem.Memory K) :
+    (¬ (inline = true ∧ isFloat = true) →
+      (Mem.wrapMem w pe cs isFloat inline v m).1 = m ∧
+      (Mem.wrapMem w pe cs isFloat inline v m).2
+        = (Mem.freshView isFloat inline v).read (Mem.wrapperBody w pe cs (Mem.freshView isFloat inline v)
+            (Mem.freshMem (Mem.freshView isFloat inline v) (v.read m)))) ∧
+    (inline = true ∧ isFloat = true →
+      (Mem.wrapMem w pe cs isFloat inline v m).1 = Mem.wrapperBody w pe cs v m ∧
+      (Mem.wrapMem w pe cs isFloat inline v m).2 = v.read (Mem.wrapperBody w pe cs v m)) := by
+  cases isFloat <;> cases inline <;> simp [Mem.wrapMem, Mem.wrapMemG, wrapTarget, Mem.wrapperBody]
+
+/-- non-vacuity: `haar(f, inline=True)` on the float view `A[:, ::2]` of a `2 × 4` buffer writes the transform into
+the even columns and leaves the odd columns alone; with `inline=False` the buffer is unchanged -/
+example :
+    (List.range 8).map (fun (a : Nat) => (Mem.wrapMem .haar false ([] : List ℚ) true true ⟨0, 2, 2, 4, 2⟩
+      (fun p => ([1, 7, 2, 7, 3, 7, 5, 7] : List ℚ).getD p.toNat 0)).1 (a : Int)) = [11, 7, 3, 7, 5, 7, 1, 7] ∧
+    (List.range 8).map (fun (a : Nat) => (Mem.wrapMem .haar false ([] : List ℚ) true false ⟨0, 2, 2, 4, 2⟩
+      (fun p => ([1, 7, 2, 7, 3, 7, 5, 7] : List ℚ).getD p.toNat 0)).1 (a : Int)) = [1, 7, 2, 7, 3, 7, 5, 7] := by
+  constructor <;> decide +kernel
+
+/-- **C17 (`wavelet_center` for every border).** Whatever `_wavelet_center_compute(oshape, border)` returns for an
+INTEGER border (negative, zero, huge): the border is below `2^40`, the shape non-empty with positive sides, and there is
+one step `1 ≤ c ≤ 63` such that every new side is the power of two `2^(⌊log₂ o⌋ + c)`, every offset is `(new − old)/2` and
+exceeds the border, and `c` is the FIRST such step (for every smaller `c' ≥ 1` some offset is `≤ border`): the sides
+are the minimal admissible powers of two. A negative border gives `c = 1` (the result of `border = −1`… is that of no
+border requirement at all). -/
+theorem C17_center_every_border (oshape : List Int) (border : Int) (ns d : List Nat)
+    (h : Mem.centerComputeI oshape border = some (ns, d)) :
+    border < 2 ^ 40 ∧ oshape ≠ [] ∧ (∀ o ∈ oshape, 0 < o) ∧
+    ∃ c, 1 ≤ c ∧ c ≤ 63 ∧
+      ns = (oshape.map Int.toNat).map (fun t => 2 ^ (Nat.log2 t + c)) ∧
+      d = (oshape.map Int.toNat).map (fun t => (2 ^ (Nat.log2 t + c) - t) / 2) ∧
+      (∀ x ∈ d, border < (x : Int)) ∧
+      (∀ c', 1 ≤ c' → c' < c →
+        ∃ t ∈ oshape.map Int.toNat, (((2 ^ (Nat.log2 t + c') - t) / 2 : Nat) : Int) ≤ border) ∧
+      (border < 0 → c = 1) :=
+  Mem.centerComputeI_spec oshape border ns d h
+
+/-- **C17 (`wavelet_center` never fails on an admissible input).** For every non-empty shape with positive sides and
+every integer border below `2^40` the loop `for c in range(1, 64)` of `_wavelet_center_compute` finds a step (`c = 42`
+always qualifies): a result exists. -/
+theorem C17_center_total (oshape : List Int) (border : Int) (hb : border < 2 ^ 40) (hne : oshape ≠ [])
+    (hpos : ∀ o ∈ oshape, 0 < o) : (Mem.centerComputeI oshape border).isSome = true :=
+  Mem.centerComputeI_total oshape border hb hne hpos
+
+/-- **C17 (`wavelet_decenter ∘ wavelet_center = id` for every border).** For every 2-D shape and every integer border
+for which `_wavelet_center_compute` returns new sides `(M0, M1)` and offsets `(d0, d1)`: the image fits behind its
+offsets (`d0 + N0 ≤ M0`, `d1 + N1 ≤ M1`), and slicing the embedded image at the same offsets gives `f` back at every
+pixel, for any fill value and any scalar type. -/
+theorem C17_decenter_center_every_border {α : Type} (N0 N1 : Nat) (border : Int) (M0 M1 d0 d1 : Nat)
+    (h : Mem.centerComputeI [(N0 : Int), (N1 : Int)] border = some ([M0, M1], [d0, d1]))
+    (cval : α) (f : Im α) :
+    d0 + N0 ≤ M0 ∧ d1 + N1 ≤ M1 ∧
+    ∀ y x, y < N0 → x < N1 → decenter d0 d1 (center N0 N1 d0 d1 cval f) y x = f y x := by
+  obtain ⟨_, _, _, c, hc, _, hns, hd, _, _, _⟩ := Mem.centerComputeI_spec _ _ _ _ h
+  simp only [List.map_cons, List.map_nil, Int.toNat_natCast, List.cons.injEq, and_true] at hns hd
+  obtain ⟨rfl, rfl⟩ := hns
+  obtain ⟨rfl, rfl⟩ := hd
+  exact ⟨Mem.cand_fits N0 c hc, Mem.cand_fits N1 c hc, fun y x hy hx => C17_decenter_center N0 N1 _ _ cval f y x hy hx⟩
+
+/-- non-vacuity: a negative border, the default, a large one, the largest admissible one, one beyond it, a zero side -/
+example : Mem.centerComputeI [5, 12] (-3) = some ([8, 16], [1, 2]) ∧
+    Mem.centerComputeI [5, 12] 0 = some ([8, 16], [1, 2]) ∧
+    Mem.centerComputeI [5, 12] 1 = some ([16, 32], [5, 10]) ∧
+    Mem.centerComputeI [4] (2 ^ 40 - 1) = some ([2 ^ 42], [2 ^ 41 - 2]) ∧
+    Mem.centerComputeI [4] (2 ^ 40) = none ∧ Mem.centerComputeI [4, 0] 0 = none := by
+  decide +kernel
+
+/-- **C17 (the `f.T` call).** (1) In the core model the column pass is the row pass between two transpositions:
+`colsPass T N0 f = (rowsPass T N0 fᵀ)ᵀ`. (2) At the level of memory: one call of a C kernel on the TRANSPOSED view
+`v.T` (strides swapped, same memory) of an injective view, with the pointer right along axis 0 (`N0` even or
+`|s0| = 1`), stores into the view the core row kernel applied to every COLUMN of the image the view showed, and changes
+nothing outside the view — `_convolve.daubechies(f.T, code)` is the column pass whatever the layout of `f`. -/
+theorem C17_transposed_pass {K : Type} [Field K] (k : Mem.Kern) (cs : List K) (v : Mem.View) (hinj : v.Inj)
+    (h0 : v.N0 % 2 = 0 ∨ v.s0 = 1 ∨ v.s0 = -1) (m : Mem.Memory K) :
+    (∀ (T : Nat → (Nat → K) → Nat → K) (N0 : Nat) (f : Im K),
+      colsPass T N0 f = fun y x => rowsPass T N0 (fun a b => f b a) x y) ∧
+    (∀ y x, y < v.N0 → x < v.N1 →
+      Mem.pass k cs v.T m (v.addr y x) = colsPass (Mem.coreKernel k cs) v.N0 (v.read m) y x) ∧
+    (∀ a, (∀ y x, y < v.N0 → x < v.N1 → a ≠ v.addr y x) → Mem.pass k cs v.T m a = m a) :=
+  ⟨fun _ _ _ => rfl, (Mem.pass_T_spec k cs v hinj (Mem.highOK_of _ _ h0) m).1,
+    (Mem.pass_T_spec k cs v hinj (Mem.highOK_of _ _ h0) m).2⟩
+
+/-- **C17 (`ihaar(haar(f))` in memory, odd sides included).** `haar` and then `ihaar`, both in place on the same
+injective view with both pointers right (each side even or of unit stride — e.g. a C-contiguous array with an EVEN
+number of rows and ANY number of columns, or a Fortran-contiguous one with an even number of columns), `preserve_energy`
+the same in both calls: afterwards the view holds the original value at every `(y, x)` with `y < 2⌊N0/2⌋`, `x < 2⌊N1/2⌋`
+and `0` in the last row / column of an odd side. Over any field with `2 ≠ 0`. (Where a pointer is wrong — an odd side
+reached with a non-unit stride — the memory model `Mem.wrapperBody` still says what the code returns, see the example
+after `C17_mem_is_core`; no closed form is claimed there.) -/
+theorem C17_ihaar_haar_memory {K : Type} [Field K] (h2 : (2 : K) ≠ 0) (pe : Bool) (cs cs' : List K) (v : Mem.View)
+    (hinj : v.Inj) (h1 : v.N1 % 2 = 0 ∨ v.s1 = 1 ∨ v.s1 = -1) (h0 : v.N0 % 2 = 0 ∨ v.s0 = 1 ∨ v.s0 = -1)
+    (m : Mem.Memory K) (y x : Nat) (hy : y < v.N0) (hx : x < v.N1) :
+    Mem.wrapperBody .ihaar pe cs' v (Mem.wrapperBody .haar pe cs v m) (v.addr y x)
+      = if y < 2 * (v.N0 / 2) ∧ x < 2 * (v.N1 / 2) then m (v.addr y x) else 0 :=
+  Mem.haar_ihaar_mem h2 pe cs cs' v hinj (Mem.highOK_of _ _ h1) (Mem.highOK_of _ _ h0) m y x hy hx
+
+/-- non-vacuity: the C-contiguous `2 × 3` array `(1,4,9), (16,25,36)` (even number of rows, odd number of columns):
+`ihaar(haar(f))` in place gives `(1,4,0), (16,25,0)` — what the real code returns -/
+example : (List.range 6).map (fun (a : Nat) => Mem.wrapperBody .ihaar true ([] : List ℚ) (Mem.View.contig 2 3)
+      (Mem.wrapperBody .haar true [] (Mem.View.contig 2 3)
+        (fun p => ([1, 4, 9, 16, 25, 36] : List ℚ).getD p.toNat 0)) (a : Int)) = [1, 4, 0, 16, 25, 0] := by
+  decide +kernel
+
+/-- **C17 (rounding of the analysis kernel, standard model of floating-point arithmetic).** Let `fl` be ANY rounding
+function on an ordered field with `|fl t − t| ≤ u·|t|` for every `t` (IEEE double: `u = 2⁻⁵³`, barring overflow and
+underflow — that is the hypothesis, Lean's `Float` itself is opaque). Run the model's own loop `waveletRow` — same
+taps, same order of accumulation, starting from `T()` — in the arithmetic `Rnd K fl` in which every `+` and `×` is
+followed by `fl` (coefficients and samples enter exactly: float32 coefficients and double samples are doubles). Then
+every sample of one row of `daubechies`, low-pass and high-pass alike, every coefficient list, every length:
+`|rounded − exact| ≤ ((1+u)^(n+1) − 1) · Σ_ci |c_ci · f(2x+ci)|`, `n = ncoeffs` — about `(n+1)·u` times the sum of
+the absolute products, the classical dot-product bound, for THIS order of operations. (The synthesis kernel and the
+2-D composition are not covered; see the report.) -/
+theorem C17_wavelet_row_rounding {K : Type} [Field K] [LinearOrder K] [IsStrictOrderedRing K] (fl : K → K) (u : K)
+    (hu : 0 ≤ u) (hfl : ∀ t, |fl t - t| ≤ u * |t|) (cs : List K) (N : Nat) (f : Nat → K) (x : Nat) :
+    |(waveletRow (cs.map (fun c => (⟨c⟩ : Rnd K fl))) N (fun i => (⟨f i⟩ : Rnd K fl)) x).val - waveletRow cs N f x|
+      ≤ ((1 + u) ^ (cs.length + 1) - 1) * rowAbs cs N f x :=
+  waveletRow_round fl u hu hfl cs N f x
+
+/-- non-vacuity: a rounding function that is not the identity (`fl t = 9t/8`, `u = 1/8`) satisfies the hypothesis; the
+exact four-tap filter on a row of four samples -/
+example : |(waveletRow (([3 / 5, 6 / 5, 2 / 5, -1 / 5] : List ℚ).map (fun c => (⟨c⟩ : Rnd ℚ (fun t => t * (9 / 8)))))
+      4 (fun i => (⟨(i : ℚ) + 1⟩ : Rnd ℚ (fun t => t * (9 / 8)))) 0).val
+      - waveletRow ([3 / 5, 6 / 5, 2 / 5, -1 / 5] : List ℚ) 4 (fun i => (i : ℚ) + 1) 0|
+    ≤ ((1 + 1 / 8) ^ (4 + 1) - 1) * rowAbs ([3 / 5, 6 / 5, 2 / 5, -1 / 5] : List ℚ) 4 (fun i => (i : ℚ) + 1) 0 :=
+  C17_wavelet_row_rounding (fun t => t * (9 / 8)) (1 / 8) (by norm_num) (by
+    intro t
+    rw [show t * (9 / 8) - t = 1 / 8 * t by ring, abs_mul]
+    norm_num) _ 4 _ 0
+
+/-- **C17 (what a call that does not work in place returns).** `w(f, inline=False)` for any layout of `f`, and
+`w(f, inline=True)` on an integer array whose axes are in C order (`|s1| ≤ |s0|`): the caller's memory is untouched
+(`C17_inline_memory`) and, when the number of rows is even (ANY number of columns — the fresh copy is C-contiguous, so
+its rows have unit stride), the returned image is the core 2-D model of the image the view shows, at every pixel —
+whatever the strides, offset or sign of the caller's view. -/
+theorem C17_not_inline_result {K : Type} [Field K] (w : Mem.Wrapper) (pe : Bool) (cs : List K) (isFloat inline : Bool)
+    (v : Mem.View) (hfresh : ¬ (inline = true ∧ isFloat = true))
+    (hC : isFloat = true ∨ inline = false ∨ v.s1.natAbs ≤ v.s0.natAbs)
+    (h0 : v.N0 % 2 = 0) (m : Mem.Memory K) (y x : Nat) (hy : y < v.N0) (hx : x < v.N1) :
+    (Mem.wrapMem w pe cs isFloat inline v m).2 y x = Mem.core2 w pe cs v.N0 v.N1 (v.read m) y x := by
+  refine Mem.wrapMem_fresh_core w pe cs isFloat inline v hfresh ?_ h0 m y x hy hx
+  unfold Mem.freshView
+  rw [if_neg]
+  rintro ⟨a, b, c⟩
+  rcases hC with h | h | h
+  · simp [h] at a
+  · simp [h] at b
+  · omega
+
+/-- non-vacuity: `haar(f, inline=False)` on the reversed-rows view of a `2 × 3` buffer (negative row stride, odd number
+of columns): the result is the core model of the viewed image `(10,20,30), (1,2,3)` -/
+example : (List.range 6).map (fun (a : Nat) => (Mem.wrapMem .haar false ([] : List ℚ) true false ⟨3, 2, 3, -3, 1⟩
+      (fun p => ([1, 2, 3, 10, 20, 30] : List ℚ).getD p.toNat 0)).2 (a / 3) (a % 3))
+    = (List.range 6).map (fun (a : Nat) => haar2 false 2 3
+      (fun y x => ([10, 20, 30, 1, 2, 3] : List ℚ).getD (3 * y + x) 0) (a / 3) (a % 3)) := by
+  decide +kernel
+
+/-- **C17-T6 (proved tolerance of the ten generated tables, any ordered field).** `C17_tables_error_bound` for images
+over EVERY linearly ordered field `K` (ℝ included), not only ℚ: the table `coeffsOf code : List K` is the cast of the
+rational table, its residuals and error constant are the casts of the rational ones (`Proofs/C17Cast.lean`), so the
+constants decided over ℚ carry over: `|idaubechies(daubechies f) y x − f y x| ≤ tableTol[code]·M` at every pixel with
+`y, x ≥ ncoeffs − 2` of every even-sided image with `|f| ≤ M`. -/
+theorem C17_tables_error_bound_field {K : Type} [Field K] [LinearOrder K] [IsStrictOrderedRing K]
+    (code : Nat) (hc : code < 10) (N0 N1 : Nat) (h0 : N0 % 2 = 0) (h1 : N1 % 2 = 0)
+    (f : Im K) (M : K) (hM : 0 ≤ M) (hf : ∀ y x, y < N0 → x < N1 → |f y x| ≤ M)
+    (y x : Nat) (hy : 2 * (code + 1) ≤ y + 2) (hyN : y < N0) (hx : 2 * (code + 1) ≤ x + 2) (hxN : x < N1) :
+    |idaubechies2 (coeffsOf code) N0 N1 (daubechies2 (coeffsOf code) N0 N1 f) y x - f y x|
+      ≤ ((tableTol.getD code 0 : ℚ) : K) * M := by
+  have h := List.all_eq_true.mp tables_consts code (List.mem_range.mpr hc)
+  simp only [Bool.and_eq_true, decide_eq_true_eq] at h
+  obtain ⟨hlen, htol⟩ := h
+  have hlenK : (coeffsOf code : List K).length = 2 * (code + 1) := by
+    rw [coeffsOf_cast, List.length_map, hlen]
+  have hb := (C17_reconstruction_error_bound_general (coeffsOf code : List K) (by rw [hlenK]; omega)
+    (by rw [hlenK]; omega) N0 N1 h0 h1 f M hM hf y x (by rw [hlenK]; exact hy) hyN (by rw [hlenK]; exact hx) hxN).1
+  refine le_trans hb (mul_le_mul_of_nonneg_right ?_ hM)
+  rw [coeffsOf_cast, errConst_cast]
+  have : ((2 * errConst (coeffsOf code : List ℚ) + errConst (coeffsOf code : List ℚ) ^ 2 : ℚ) : K)
+      ≤ ((tableTol.getD code 0 : ℚ) : K) := Rat.cast_le.mpr htol
+  simpa using this
+
+/-- **C17 (energy of the ten generated tables, any ordered field).** `C17_tables_energy_bound` over every linearly
+ordered field: relative energy defect of `daubechies` at most `4·tableTol[code]` on even-sided images vanishing in their
+first `ncoeffs − 2` rows and columns. -/
+theorem C17_tables_energy_bound_field {K : Type} [Field K] [LinearOrder K] [IsStrictOrderedRing K]
+    (code : Nat) (hc : code < 10) (N0 N1 : Nat) (h0 : N0 % 2 = 0) (h1 : N1 % 2 = 0) (f : Im K)
+    (hy0 : ∀ y x, y < N0 → x < N1 → y + 2 < 2 * (code + 1) → f y x = 0)
+    (hx0 : ∀ y x, y < N0 → x < N1 → x + 2 < 2 * (code + 1) → f y x = 0) :
+    |energy N0 N1 (daubechies2 (coeffsOf code) N0 N1 f) - 4 * energy N0 N1 f|
+      ≤ 4 * ((tableTol.getD code 0 : ℚ) : K) * energy N0 N1 f := by
+  have h := List.all_eq_true.mp tables_energy_consts code (List.mem_range.mpr hc)
+  simp only [Bool.and_eq_true, decide_eq_true_eq] at h
+  obtain ⟨hlen, htol⟩ := h
+  have hlenK : (coeffsOf code : List K).length = 2 * (code + 1) := by
+    rw [coeffsOf_cast, List.length_map, hlen]
+  have hb := (C17_daubechies_energy_bound (coeffsOf code : List K) (by rw [hlenK]; omega) (by rw [hlenK]; omega)
+    N0 N1 h0 h1 f (by rw [hlenK]; exact hy0) (by rw [hlenK]; exact hx0)).1
+  have hE : 0 ≤ energy N0 N1 f := by
+    rw [energy_eq_energy2]
+    unfold energy2
+    exact Finset.sum_nonneg fun y _ => Finset.sum_nonneg fun x _ => sq_nonneg _
+  refine le_trans hb (mul_le_mul_of_nonneg_right ?_ hE)
+  rw [coeffsOf_cast, errConst_cast]
+  have : ((8 * errConst (coeffsOf code : List ℚ) + 4 * errConst (coeffsOf code : List ℚ) ^ 2 : ℚ) : K)
+      ≤ ((4 * tableTol.getD code 0 : ℚ) : K) := Rat.cast_le.mpr htol
+  simpa using this
+
+/-- non-vacuity: the field of the theorem can be ℚ itself (the cast is then the identity), where the hypotheses are
+met by the `4 × 4` delta image of the energy example; and the table of `D4` over any field is the cast of the rational
+one -/
+example : |idaubechies2 (coeffsOf 1) 4 4 (daubechies2 (coeffsOf 1) 4 4 (fun y x => if y = 2 ∧ x = 2 then (1 : ℚ) else 0)) 2 2
+      - 1| ≤ ((tableTol.getD 1 0 : ℚ) : ℚ) * 1 := by
+  have := C17_tables_error_bound_field (K := ℚ) 1 (by omega) 4 4 rfl rfl
+    (fun y x => if y = 2 ∧ x = 2 then (1 : ℚ) else 0) 1 (by norm_num)
+    (by intro y x _ _; by_cases h : y = 2 ∧ x = 2 <;> simp [h]) 2 2 (by omega) (by omega) (by omega) (by omega)
+  simpa using this
+
+/-- **C17 (the truncated pointer never leaves the row).** For every stride (positive, negative, zero), every length
+`N` (odd included) and every sample index `i < N/2` that `ihaar` (`high[i·step]`) and `iwavelet`
+(`_access(high, N1/2, i, step)`) use: the address offset `highOff step N + step·i` relative to `data` lies in
+`[0, step·(N−1)]` (in `[step·(N−1), 0]` for a negative stride) — between the first and the last element of the row the
+kernel was given. So the misplaced reads on odd sides are reads of other elements of the same array, never
+out-of-bounds accesses. -/
+theorem C17_high_reads_in_row (step : Int) (N i : Nat) (hi : i < N / 2) :
+    (0 ≤ step → 0 ≤ Mem.highOff step N + step * (i : Int) ∧
+      Mem.highOff step N + step * (i : Int) ≤ step * ((N - 1 : Nat) : Int)) ∧
+    (step ≤ 0 → step * ((N - 1 : Nat) : Int) ≤ Mem.highOff step N + step * (i : Int) ∧
+      Mem.highOff step N + step * (i : Int) ≤ 0) :=
+  Mem.high_read_in_row step N i hi
+
+/-- non-vacuity: the transposed pass over a C-contiguous `5 × 5` array (`step = 5`, `N = 5`): the two high samples are
+read at offsets 12 and 17, inside `[0, 20]`, where samples 2 and 3 of the column are at 10 and 15 -/
+example : Mem.highOff 5 5 + 5 * 0 = 12 ∧ Mem.highOff 5 5 + 5 * 1 = 17 ∧ (5 : Int) * ((5 - 1 : Nat) : Int) = 20 := by
+  decide
